@@ -87,18 +87,36 @@ def decConfVals : List String → Option ConfVals
            moresLength := g, maximum := h, instant := i }
   | _ => none
 
+def decKw : List String → Option Kw
+  | [to, no, pr, pf, ac] => do
+    let to ← decOpt to
+    let no ← decOptBool no
+    let pr ← decOptBool pr
+    let pf ← decOptBool pf
+    let ac ← decOptBool ac
+    pure { to := to, notice := no, priv := pr, prefixNick := pf, action := ac }
+  | _ => none
+
+def decOptConf (name : String) (vals : List String) : Option (Option (Str × ConfVals)) :=
+  if name = "~" then some none else do
+    let n ← dec name
+    let v ← decConfVals vals
+    pure (some (n, v))
+
 def decCall (fs : List String) : Option Call :=
   match fs with
-  | bp :: mp :: nick :: mt :: ch :: to :: pt :: pn :: pm :: ct :: cm :: tn :: th :: no :: pr :: pf :: ac :: sc :: lang ::
-      nwp :: rest =>
-    match rest with
-    | g1 :: g2 :: g3 :: g4 :: g5 :: g6 :: g7 :: g8 :: g9 :: oc :: c1 :: c2 :: c3 :: c4 :: c5 :: c6 :: c7 :: c8 :: c9 :: [] => do
+  | bp :: mp :: nick :: mt :: mc :: k1 :: k2 :: k3 :: k4 :: k5 :: hasInner :: i1 :: i2 :: i3 :: i4 :: i5 :: ts :: pt :: pn ::
+      pm :: ct :: cm :: tn :: th :: sc :: lang :: nwp :: rest =>
+    if rest.length ≠ 9 + 10 + 10 + 10 then none else do
       let bp ← dec bp
       let mp ← dec mp
       let nick ← dec nick
       let mt ← dec mt
-      let ch ← decBool ch
-      let to ← decOpt to
+      let mc ← decOpt mc
+      let kw ← decKw [k1, k2, k3, k4, k5]
+      let hasInner ← decBool hasInner
+      let ki ← decKw [i1, i2, i3, i4, i5]
+      let ts ← decOpt ts
       let pt ← decBool pt
       let pn ← decBool pn
       let pm ← decBool pm
@@ -106,22 +124,18 @@ def decCall (fs : List String) : Option Call :=
       let cm ← decBool cm
       let tn ← decBool tn
       let th ← decOpt th
-      let no ← decOptBool no
-      let pr ← decOptBool pr
-      let pf ← decOptBool pf
-      let ac ← decBool ac
       let sc ← decBool sc
       let lang ← dec lang
       let nwp ← decBool nwp
-      let g ← decConfVals [g1, g2, g3, g4, g5, g6, g7, g8, g9]
-      let oc ← decOpt oc
-      let cv ← decConfVals [c1, c2, c3, c4, c5, c6, c7, c8, c9]
-      pure { botPrefix := bp, msgPrefix := mp, nick := nick, msgTarget := mt, msgIsChannel := ch, to := to,
+      let g ← decConfVals (rest.take 9)
+      let oc ← decOptConf ((rest.drop 9).headD "~") ((rest.drop 10).take 9)
+      let netv ← decOptConf ((rest.drop 19).headD "~") ((rest.drop 20).take 9)
+      let nc ← decOptConf ((rest.drop 29).headD "~") ((rest.drop 30).take 9)
+      pure { botPrefix := bp, msgPrefix := mp, nick := nick, msgTarget := mt, msgChannel := mc, kw := kw,
+             inner := if hasInner then some ki else none, toStripped := ts,
              pubTo := pt, pubNick := pn, pubMsgTarget := pm, chanTo := ct, chanMsgTarget := cm, toIsNick := tn,
-             toHostmask := th, notice := no, priv := pr, prefixNick := pf, action := ac, stripCtcp := sc,
-             texts := textsOf lang, noticeWhenPrivate := nwp, confGlobal := g,
-             confChan := oc.map fun name => (name, cv) }
-    | _ => none
+             toHostmask := th, stripCtcp := sc, texts := textsOf lang, noticeWhenPrivate := nwp, confGlobal := g,
+             confChan := oc, confNet := { net := netv.map (·.2), netChan := nc } }
   | _ => none
 
 /-- the text a command hands to `irc.reply`: a nested command's reply is cut to reply.maximumLength -/
@@ -193,7 +207,7 @@ def stepLine (st : St) : List String → St × String
         (match nestedText nested s with
          | none => "bad-op"
          | some s =>
-           if c.action then "action"
+           if c.unchecked then "unchecked"
            else match prepare c.env c.cfg s with
              | none => "unsupported"
              | some (allowed, s1, single) => toString allowed ++ "\t" ++ enc s1 ++ "\t" ++ encBool single)
@@ -206,18 +220,18 @@ def stepLine (st : St) : List String → St × String
        | some s =>
          let e := c.env
          let cfg := c.cfg
-         let contractOk : Bool := c.action || (match prepare e cfg s with
+         let contractOk : Bool := c.unchecked || (match prepare e cfg s with
            | some (_, s1, false) => chunks.flatten = munge s1
            | _ => true)
          if !contractOk then (st, "bad-chunks")
-         else match replyCall e cfg chunks s with
+         else match c.reply chunks s with
            | .sent now stored =>
              ((match stored with
                | some l => st.store c.storeMask e.nick (storedPrivate e) l
                | none => st),
               "sent\t" ++ encOuts now ++ "\t" ++ (match stored with
                 | some l => encOuts l
-                | none => "~") ++ "\t" ++ (if c.action then "~" else wrapLength e cfg s) ++ "\t" ++ enc c.storeMask)
+                | none => "~") ++ "\t" ++ (if c.unchecked then "~" else wrapLength e cfg s) ++ "\t" ++ enc c.storeMask)
            | .wrapFailed r => (st, "wrapfailed\t" ++ encRes r)
            | .unsupported => (st, "unsupported"))
     | _, _, _ => (st, "bad-op")
